@@ -13,6 +13,7 @@ import (
 	"reservoir/cache"
 	"reservoir/config"
 	"reservoir/utils/bytesize"
+	"reservoir/utils/duration"
 	"reservoir/utils/event"
 	"verifharness/emit"
 )
@@ -428,19 +429,28 @@ func realComponent(r *emit.Rand, file bool) (string, map[string]any) {
 	}
 	waitIdle(idle)
 	final := c.VerifLimit()
+	// shutdown order: Destroy alone, or the context cancelled first (the cleanup task has already ended when Destroy runs)
+	cancelFirst := r.Bool()
+	if cancelFirst {
+		cancel()
+		time.Sleep(3 * time.Millisecond)
+	}
 	c.Destroy()
 	p.Stage(bytesize.ByteSize(12345))
 	p.CommitStaged()
+	cfg.Cache.CleanupInterval.Stage(duration.Duration(3 * time.Hour))
+	cfg.Cache.CleanupInterval.CommitStaged()
 	waitIdle(idle)
 	time.Sleep(200 * time.Microsecond)
 	after := c.VerifLimit()
-	lenAfter := p.VerifEvent().VerifLen()
+	// listeners the destroyed component still has on ANY setting it follows
+	lenAfter := p.VerifEvent().VerifLen() + cfg.Cache.CleanupInterval.VerifEvent().VerifLen() + cfg.Cache.Memory.MemoryBudgetPercent.VerifEvent().VerifLen()
 	backend := "memory"
 	if file {
 		backend = "file"
 	}
 	return fmt.Sprintf("ER %s %s %s %d", emit.List(fired), emit.Z(final), emit.Z(after), lenAfter),
-		map[string]any{"case": "ER", "backend": backend, "changes": firedN, "final": final, "after_destroy": after, "subscribers_after_destroy": lenAfter}
+		map[string]any{"case": "ER", "backend": backend, "changes": firedN, "final": final, "after_destroy": after, "subscribers_after_destroy": lenAfter, "context_cancelled_before_destroy": cancelFirst}
 }
 
 // ---------- the stage ----------
@@ -451,7 +461,7 @@ func runC19() {
 	w := &emit.Writer{Dir: *flagOut, Prefix: "ev", ShardSize: 120,
 		Imports:  "From Reservoir Require Import Base.Prelude Model.Event Check.Event.",
 		CaseType: "ev_case", CheckFn: "check_ev"}
-	meta.Rule = "event histories against the real utils/event: (orders) n=1..4 listeners, one change, every unsubscribe sequence with repeats up to length n+1 (n<=3 exhaustive in quick, n=4: all 24 permutations + a random sample; thorough: n=4 exhaustive), a change after every unsubscribe, free-running and gated listeners; (gated) random single-step histories over Sub/Unsub/Fire/Release with listeners that block until released; (burst) back-to-back changes with listeners that yield or sleep, listeners subscribing/unsubscribing inside the burst; (real) a MemoryCache/FileCache following cache.max_cache_size through 2-41 back-to-back changes, then Destroy and one more change; (live-read) a real proxy whose switch proxy.retry_on_range_416 is changed through the update API between ranged requests to an origin that answers 416. distinct by printed case; non-trivial = at least two listeners and one unsubscribe, or a burst of >= 10 changes"
+	meta.Rule = "event histories against the real utils/event: (orders) n=1..4 listeners, one change, every unsubscribe sequence with repeats up to length n+1 (n<=3 exhaustive in quick, n=4: all 24 permutations + a random sample; thorough: n=4 exhaustive), a change after every unsubscribe, free-running and gated listeners; (gated) random single-step histories over Sub/Unsub/Fire/Release with listeners that block until released; (burst) back-to-back changes with listeners that yield or sleep, listeners subscribing/unsubscribing inside the burst; (real) a MemoryCache/FileCache following cache.max_cache_size through 2-41 back-to-back changes, then Destroy (alone, or after the context was cancelled) and one more change of the size limit and of the cleanup interval, counting the listeners left on all three settings the cache follows; (live-read) a real proxy whose switch proxy.retry_on_range_416 is changed through the update API between ranged requests to an origin that answers 416. distinct by printed case; non-trivial = at least two listeners and one unsubscribe, or a burst of >= 10 changes"
 
 	add := func(family string, gated bool, segs [][]hact) {
 		c := runScript(gated, r.U64(), segs)
